@@ -171,9 +171,13 @@ ilu_ccopy_to_ucol(
 		d_max = 1.0 / d_max; d_min = 1.0 / d_min;
 		tol = 1.0 / (d_max + (d_min - d_max) * quota / m);
 	    } else {
+		float *w = work;
+		/* work[] has room for n entries; an ILU column of U may hold more */
+		if ( m > Glu->n ) w = floatMalloc(m);
                 i_1 = xusub[jcol];
-                for (i = 0; i < m; ++i, ++i_1) work[i] = c_abs1(&ucol[i_1]);
-		tol = sqselect(m, work, quota);
+                for (i = 0; i < m; ++i, ++i_1) w[i] = c_abs1(&ucol[i_1]);
+		tol = sqselect(m, w, quota);
+		if ( w != work ) SUPERLU_FREE(w);
 #if 0
 		A = &ucol[xusub[jcol]];
 		for (i = 0; i < m; i++) work[i] = i;
